@@ -261,6 +261,26 @@ def run(res, proof):
                 res.violation('file-parse-raises:' + type(e).__name__, {'text': txt}, type(e).__name__, 'equal results')
             finally:
                 os.unlink(p)
+        good = [c for c in cases if c[2] is not None and c[0] != 'document' and '\n' not in c[1].strip('\n')]
+        bad = [c for c in cases if c[2] is None]
+        for k in range(min(len(bad), 60 if quick else 600)):
+            g1, g2, b = rng.choice(good), rng.choice(good), bad[k]
+            txt = g1[1] + ('' if g1[1].endswith('\n') else '\n') + g2[1] + ('' if g2[1].endswith('\n') else '\n') + b[1]
+            res.evaluations += 1
+            p = os.path.join(tmpdir, 'neg.ssw')
+            with open(p, 'w', newline='') as f:
+                f.write(txt)
+            outcomes = []
+            for name, call in (('string', lambda: parse_seesaw_string(txt)), ('file', lambda: parse_seesaw_file(p))):
+                try:
+                    call(); outcomes.append((name, 'accepted'))
+                except Exception as e:
+                    outcomes.append((name, type(e).__name__)); e = None
+            os.unlink(p)
+            if any(o != 'ParseException' for _, o in outcomes):
+                res.violation('malformed-later-statement-accepted:' + '/'.join('%s=%s' % o for o in outcomes), {'text': txt},
+                              ', '.join('%s: %s' % o for o in outcomes), 'ParseException from both entry points')
+            res.count('negative_documents_file_and_string')
     finally:
         os.rmdir(tmpdir)
     lines = ['ssw.parse\t' + PG.hx(t) for t in texts]
